@@ -397,7 +397,7 @@ func init() {
 			"GJS.Props.C02.prim_roundtrip", "GJS.Props.C02.validators_only_reject_on_constraints", "GJS.Props.C02.unmarshal_accept_stable",
 			"GJS.Props.C02.rejected_forever_not_accepted", "GJS.Proofs.decode_ok_mono", "GJS.Proofs.okMono",
 			"GJS.Props.C02.numeric_accepts_valid_float", "GJS.Props.C02.string_accepts_valid_ascii", "GJS.Props.C02.array_accepts_valid",
-		
+
 			"GJS.Props.C02.runAfter_ok_iff", "GJS.Props.C02.runBefore_ok_iff", "GJS.Props.C02.struct_method_ok_iff", "GJS.Props.C02.accepted_passes_every_check",
 			"GJS.Props.C02.acc_slice_iff", "GJS.Props.C02.acc_struct_iff", "GJS.Props.C02.acc_ptr_iff", "GJS.Props.C02.acc_named_iff",
 			"GJS.Props.C02.acc_string_iff", "GJS.Props.C02.acc_bool_iff", "GJS.Props.C02.acc_float_iff", "GJS.Props.C02.acc_int_iff",
@@ -638,6 +638,11 @@ func init() {
 			{"array-of-integers", M{"type": "array", "items": M{"type": "integer"}, "default": []any{1, 2, 3}}, []any{4}},
 			{"array-of-numbers", M{"type": "array", "items": M{"type": "number"}, "default": []any{1.5}}, []any{2.5, 3}},
 		}
+		// defaults in which equal sub-values repeat (the literal printer must print each of them, not a reference; object-valued
+		// and nested-array defaults are outside the model's literal fragment, K4: their witness is replayed as fixed finding R16)
+		cases = append(cases,
+			dcase{"array-of-equal-strings", M{"type": "array", "items": M{"type": "string"}, "default": []any{"s", "s"}}, []any{"c"}},
+		)
 		// integer defaults at the edges of the narrow types --min-sized-ints chooses (run WITH the flag: name prefix "ms-")
 		cases = append(cases,
 			dcase{"ms-uint64-2^63-default", M{"type": "integer", "minimum": 0, "default": json.Number("9223372036854775808")}, 7},
@@ -807,6 +812,7 @@ func init() {
 			}
 		}
 		breaks(c, res, nil, fails > 0)
+		knownMultiFileFindings(c)
 		knownProgramFindings(c)
 	})
 }
